@@ -1225,6 +1225,15 @@ func (p *Parser) relocateNamedObjects(objIndex uint32) parseResult {
 					return parseResultFailed
 				}
 			}
+			// Relocating an object under itself (or one of its descendants)
+			// would turn the tree into a cycle.
+			for ancestorIndex := targetObj.index; ancestorIndex != InvalidIndex; ancestorIndex = p.objTree.ObjectAt(ancestorIndex).parentIndex {
+				if ancestorIndex == obj.index {
+					kfmt.Fprintf(p.errWriter, "[table: %s, offset: 0x%x] relocation path \"%s\" resolves inside the relocated object\n", p.tableName, obj.amlOffset, namepath[:])
+					return parseResultFailed
+				}
+			}
+
 			p.objTree.detach(p.objTree.ObjectAt(obj.parentIndex), obj)
 			p.objTree.append(targetObj, obj)
 			p.objTree.ObjectAt(obj.firstArgIndex).value = namepath[nameIndex:]
